@@ -6,14 +6,18 @@
 (* every request is prepared exactly once, the run terminates, and what every  *)
 (* request saw (hence the final response) is the same in every behaviour.      *)
 EXTENDS FetchTree
-CONSTANTS MaxN,      \* trees over 1..n for every n <= MaxN
+CONSTANTS TransitiveSkip, \* TRUE = the code (a skipped request counts as failed); FALSE only in the negative configuration
+          FaultMaxN, \* trees over <= FaultMaxN fetches are also run with ONE failing request (every choice), 0 = fault-free only
+          MaxN,      \* trees over 1..n for every n <= MaxN
           Family     \* "max": deps = the most demanding well-formed graph of the tree
                      \* "all": every graph over the ids (well-formed or not; the theorem is an implication)
                      \* "mix": "max" for every tree plus "few" for the trees over <= 3 fetches (quick tier, one run)
                      \* "few": every graph with at most two edges (both sides of the theorem are conjunctions over edges)
                      \* "bad": a well-formed graph plus ONE edge the tree does not order (negative test)
-VARIABLES tree, deps, st, seen, nstart
-vars == <<tree, deps, st, seen, nstart>>
+VARIABLES tree, deps, st, seen, nstart,
+          terr,      \* the request whose data source fails (0 = none)
+          bad        \* failed or skipped requests
+vars == <<tree, deps, st, seen, nstart, terr, bad>>
 
 Min(S) == CHOOSE x \in S : \A y \in S : x <= y
 
@@ -35,10 +39,13 @@ T(S, no) ==
 
 Ids == Members(tree)
 MaxDeps(t) == [f \in Members(t) |-> {d \in Members(t) : <<d, f>> \in Prec(t)}]
+\* only the DIRECT dependencies of MaxDeps (which is transitively closed): a dependant of a dependant does not depend on the root
+RedDeps(t) == LET D == MaxDeps(t) IN [f \in Members(t) |-> {d \in D[f] : ~\E e \in D[f] \ {d} : d \in D[e]}]
 DepFamily(t) ==
   CASE Family = "max" -> {MaxDeps(t)}
+    [] Family = "maxred" -> {MaxDeps(t), RedDeps(t)}
     [] Family = "all" -> [Members(t) -> SUBSET Members(t)]
-    [] Family = "mix" -> {MaxDeps(t)} \cup
+    [] Family = "mix" -> {MaxDeps(t), RedDeps(t)} \cup
                          (IF Cardinality(Members(t)) <= 3
                           THEN {g \in [Members(t) -> SUBSET Members(t)] : Cardinality({e \in Members(t) \X Members(t) : e[1] \in g[e[2]]}) <= 2}
                           ELSE {})
@@ -52,37 +59,58 @@ Init ==
   /\ st = [p \in Paths(tree) |-> "idle"]
   /\ seen = [f \in Members(tree) |-> {}]
   /\ nstart = [f \in Members(tree) |-> 0]
+  /\ terr \in {0} \cup (IF Cardinality(Members(tree)) <= FaultMaxN /\ deps \in {MaxDeps(tree), RedDeps(tree)} THEN Members(tree) ELSE {})
+  /\ bad = {}
 
-Activate(p) == CanActivate(tree, st, p) /\ st' = [st EXCEPT ![p] = "active"] /\ UNCHANGED <<tree, deps, seen, nstart>>
-Complete(p) == CanComplete(tree, st, p) /\ st' = [st EXCEPT ![p] = "done"] /\ UNCHANGED <<tree, deps, seen, nstart>>
-\* preparePhase [db]: the input is rendered from the data merged so far
+Activate(p) == CanActivate(tree, st, p) /\ st' = [st EXCEPT ![p] = "active"] /\ UNCHANGED <<tree, deps, seen, nstart, terr, bad>>
+Complete(p) == CanComplete(tree, st, p) /\ st' = [st EXCEPT ![p] = "done"] /\ UNCHANGED <<tree, deps, seen, nstart, terr, bad>>
+\* preparePhase [db]: a request that reads from a failed / skipped request is not issued at all and counts as failed
+\* itself (shouldSkipErroredDependencyLocked); otherwise the input is rendered from the data merged so far
 Start(p) ==
   /\ At(tree, p).k = "F" /\ st[p] = "active"
-  /\ st' = [st EXCEPT ![p] = "started"]
   /\ LET f == At(tree, p).id IN
-       /\ seen' = [seen EXCEPT ![f] = {d \in deps[f] : MergedIn(tree, st, d)}]
-       /\ nstart' = [nstart EXCEPT ![f] = @ + 1]
-  /\ UNCHANGED <<tree, deps>>
-\* loadPhase returned and mergePhase [db] done
+       IF deps[f] \cap bad # {}
+       THEN /\ st' = [st EXCEPT ![p] = "done"]
+            /\ bad' = IF TransitiveSkip THEN bad \cup {f} ELSE bad
+            /\ UNCHANGED <<seen, nstart>>
+       ELSE /\ st' = [st EXCEPT ![p] = "started"]
+            /\ seen' = [seen EXCEPT ![f] = {d \in deps[f] : MergedIn(tree, st, d)}]
+            /\ nstart' = [nstart EXCEPT ![f] = @ + 1]
+            /\ bad' = bad
+  /\ UNCHANGED <<tree, deps, terr>>
+\* loadPhase returned (a failure is recorded under the lock) and mergePhase [db] done
 Finish(p) ==
   /\ At(tree, p).k = "F" /\ st[p] = "started"
   /\ st' = [st EXCEPT ![p] = "done"]
-  /\ UNCHANGED <<tree, deps, seen, nstart>>
+  /\ bad' = IF At(tree, p).id = terr THEN bad \cup {terr} ELSE bad
+  /\ UNCHANGED <<tree, deps, seen, nstart, terr>>
 
 Next == \E p \in Paths(tree) : Activate(p) \/ Complete(p) \/ Start(p) \/ Finish(p)
 Terminating == AllDone(tree, st) /\ UNCHANGED vars
 Spec == Init /\ [][Next \/ Terminating]_vars /\ WF_vars(Next)
 
 TypeOK == st \in [Paths(tree) -> {"idle", "active", "started", "done"}]
-DepsRespected == \A f \in Ids : StartedIn(tree, st, f) => \A d \in deps[f] \cap Ids : MergedIn(tree, st, d)
-SawAllDeps == \A f \in Ids : StartedIn(tree, st, f) => seen[f] = deps[f]
+Issued(f) == nstart[f] > 0
+\* issued => every request it reads from completed AND was merged (a failed or skipped request never counts)
+DepsRespected == \A f \in Ids : Issued(f) => \A d \in deps[f] \cap Ids : MergedIn(tree, st, d) /\ d \notin bad
+SawAllDeps == \A f \in Ids : Issued(f) => seen[f] = deps[f]
 WF == WellFormed(tree, Ids, deps)
+\* the failed request and everything that transitively reads from it
+RECURSIVE Dependants(_, _)
+Dependants(S, k) == IF k = 0 THEN S ELSE Dependants(S \cup {f \in Ids : deps[f] \cap S # {}}, k - 1)
+Broken == IF terr = 0 THEN {} ELSE Dependants({terr}, Cardinality(Ids))
+\* exactly the transitive dependants of the failed request are never issued, everything else exactly once
+FaultOK == /\ bad \subseteq Broken
+           /\ \A f \in Ids : nstart[f] <= 1 /\ (f \in Broken \ {terr} => nstart[f] = 0)
+           /\ AllDone(tree, st) => /\ bad = Broken
+                                   /\ \A f \in Ids : nstart[f] = IF f \in Broken \ {terr} THEN 0 ELSE 1
 \* the theorem of C08
-Theorem == WF => (DepsRespected /\ SawAllDeps)
+Theorem == WF => (DepsRespected /\ SawAllDeps /\ FaultOK)
 ExactlyOnceStarted == /\ \A f \in Ids : nstart[f] <= 1
-                      /\ AllDone(tree, st) => \A f \in Ids : nstart[f] = 1
-\* the "response" (what every request read) of a finished run does not depend on the interleaving
-OrderIndependent == (WF /\ AllDone(tree, st)) => seen = deps
+                      /\ (AllDone(tree, st) /\ terr = 0) => \A f \in Ids : nstart[f] = 1
+\* the "response" (what every issued request read, which requests ran) of a finished run does not depend on the interleaving
+OrderIndependent == (WF /\ AllDone(tree, st)) => /\ \A f \in Ids : Issued(f) => seen[f] = deps[f]
+                                                   /\ bad = Broken
 \* the big-step closure used by the generator / trace specs only performs steps of this spec
 SettleIsReachable == \A p \in Paths(tree) : Settle(tree, st)[p] # st[p] => st[p] \in {"idle", "active"}
 Terminates == <>AllDone(tree, st)
